@@ -14,7 +14,7 @@ ASSUMPTIONS = ["lex->act contract: token types as in the item forms; ID values a
 OUTSIDE = ["two-word types, arrays, <...> types (C09)", "CHECK / COMMENT / COLLATE / GENERATED options", "default expressions with calls or casts; two DEFAULT or two REFERENCES options on one column",
            "DEFAULT <identifier> directly followed by REFERENCES (the `default id` production continues the default)", "sizes of more than 2 [thorough 3] digits under the regex-based size test"]
 TYPES = ["int", "varchar(n)", "decimal(p,s)", "s.T"]
-OPTS = 12
+OPTS = 14
 
 
 def obligations(tier):
